@@ -247,6 +247,16 @@ func (p *Program) lookupType(name string, pkg *types.Package) types.Type {
 			return types.NewSlice(t)
 		}
 		return nil
+	case strings.HasPrefix(name, "["):
+		if i := strings.Index(name, "]"); i > 0 {
+			var n int64
+			if _, err := fmt.Sscanf(name[1:i], "%d", &n); err == nil {
+				if t := p.lookupType(name[i+1:], pkg); t != nil {
+					return types.NewArray(t, n)
+				}
+			}
+		}
+		return nil
 	}
 	for _, b := range types.Typ {
 		if b.Name() == name {
@@ -683,6 +693,8 @@ func (p *Program) callOrdinal(site ssa.Instruction, name string) int {
 				n = ifaceMethodName(c.Value.Type(), c.Method)
 			} else if callee := c.StaticCallee(); callee != nil {
 				n = funcShortName(callee)
+			} else if fn := funcFieldName(c.Value); fn != "" {
+				n = fn
 			}
 			if n == name {
 				list = append(list, ent{in, in.Pos()})
